@@ -783,6 +783,8 @@ class TBuilder:
             return self.lit(cur, t.v)
         if isinstance(t, Slot):
             lang = self.slot_lang(t.path)
+            if isinstance(lang, T):
+                return self.term(lang, cur, in_repeat)     # structured slot: expand in place
             return self.tagged(cur, self.tags.get(t.path), lambda c: self.embed(c, lang), in_repeat)
         if isinstance(t, Cat):
             for x in t.items:
